@@ -203,8 +203,9 @@ pub fn run_pass(obs: Obs, level: usize, sel: &dyn Fn(&GroupInfo) -> bool, items_
     let gs: Vec<GroupInfo> = groups(level)?.into_iter().filter(|g| g.name != "canary" && sel(g)).collect();
     let mut items: Vec<(GroupInfo, usize, usize)> = Vec::new();
     for g in &gs {
-        // `items_per_group` is the target number of programs per child process
-        let sz = items_per_group.max(1);
+        // `items_per_group` is the target number of programs per child process; the
+        // large-order programs are two orders of magnitude slower under Miri
+        let sz = if g.name == "large" && obs == Obs::Miri { 3 } else { items_per_group.max(1) };
         let mut f = 0;
         while f < g.total {
             items.push((g.clone(), f, (f + sz).min(g.total)));
